@@ -22,8 +22,12 @@ _A = onnx.AttributeProto
 
 FRONT_ENDS = ("static", "eager", "builder", "bdyn")
 
-POOL = [0, 1, -3, 2.5, -0.0, True, [1, 2], [0.5]]
-PAIR_POOL = POOL + [0.0, 1.0, [0.0], [-0.0], [1], [True]]
+BASE_POOL = [0, 1, -3, 2.5, -0.0, True, [1, 2], [0.5]]
+# one literal beyond the pool of the property record: a float that float32 cannot represent, so that a
+# front end that materialises FLOAT first and casts afterwards is distinguishable beside a DOUBLE sibling
+EXTRA_POOL = [0.1]
+POOL = BASE_POOL + EXTRA_POOL
+PAIR_POOL = BASE_POOL + [0.0, 1.0, [0.0], [-0.0], [1], [True]]
 
 # short name -> (onnx type string, onnxscript annotation / ir.DataType name, numpy dtype)
 DTYPES = {
@@ -53,6 +57,8 @@ def lit_class(lit):
             return "neg-int" if x < 0 else "int"
         if x == 0 and np.signbit(x):
             return "neg-zero"
+        if float(np.float32(x)) != x:
+            return "float-inexact"
         return "float"
     if isinstance(lit, list):
         return one(lit[0]) + "-list"
@@ -389,15 +395,15 @@ def pair_expected(shape, d1, d2, l1, l2):
 
 
 def pair_class(l1, l2, e1, e2):
-    """Why two literals must not share a tensor."""
-    def eq(a, b):
-        try:
-            return a == b
-        except Exception:
-            return False
-    if eq(l1, l2) and not (e1[1] is UNDEFINED or e2[1] is UNDEFINED) and not same_bits(e1[1], e2[1]):
-        if e1[0] == e2[0]:
+    """Why two literals must not share a tensor (names the cause, used in finding keys)."""
+    a = l1 if isinstance(l1, list) else [l1]
+    b = l2 if isinstance(l2, list) else [l2]
+    if isinstance(l1, list) == isinstance(l2, list) and len(a) == len(b):
+        def neg(x):
+            return isinstance(x, float) and bool(np.signbit(x))
+        if any(x == 0 and y == 0 and neg(x) != neg(y) for x, y in zip(a, b)):
             return "signed-zero-list" if isinstance(l1, list) else "signed-zero"
-        return "equal-different-type"
+        if all(x == y for x, y in zip(a, b)) and [type(x) for x in a] != [type(y) for y in b]:
+            return "equal-different-type"
     c1, c2 = lit_class(l1), lit_class(l2)
     return c1 if c1 == c2 else f"{c1}/{c2}"
